@@ -177,7 +177,8 @@ def run(tier, seed, replay):
     chk.add_bounded("Lexer.__iter__", "every string is turned into tokens and lexical diagnostics (no exception)",
                     "all strings of length 1..%d over a 20-character alphabet; runs of 50..3000 unmatched characters; "
                     "long char literal / splice runs; every proper prefix of 42 lexemes of every kind (escapes, "
-                    "prefixes, comments, constants, operators, alternative spellings) x 3 contexts"
+                    "prefixes, comments, constants, operators, alternative spellings) x 3 contexts; 38 tokens of 40 / 400 "
+                    "characters of every kind, each in its own process with a hard time limit"
                     % (4 if thorough else 3), lx["cases"], [], nontrivial=lx["cases"],
                     samples=list(lx["exceptions"].items())[:2], time_s=time.time() - t0)
     for k, text in sorted(lx["exceptions"].items()):
